@@ -120,6 +120,52 @@ end
 def W3 (d : Gen.D) (ch : Expr → Bool) (e : Expr) (k : Nat) : List Tok := wrapT (ch e) e k (toksE3 d ch e)
 
 
+/-! ### an upper bound for the number of top-level tokens of a rendering -/
+mutual
+def tl3 : Expr → Nat
+  | .column (some _) _ => 3
+  | .wildcard (some _) => 3
+  | .func _ _ _ => 4
+  | .agg _ _ _ => 2
+  | .caseCond cs els => 2 + tlA3 cs + tlO3 els
+  | .caseVal v cs els => 2 + tl3 v + tlA3 cs + tlO3 els
+  | .exists_ v => 1 + tl3 v
+  | .unary _ e => 1 + tl3 e
+  | .compute l _ r => tl3 l + 1 + tl3 r
+  | .kw _ _ l r => tl3 l + 2 + tl3 r
+  | .between _ b f t => tl3 b + 3 + tl3 f + tl3 t
+  | .compare _ l r => tl3 l + 1 + tl3 r
+  | .not_ e => 1 + tl3 e
+  | .and_ l r => tl3 l + 1 + tl3 r
+  | .xor l r => tl3 l + 1 + tl3 r
+  | .or_ l r => tl3 l + 1 + tl3 r
+  | _ => 1
+def tlA3 : List (Expr × Expr) → Nat
+  | [] => 0
+  | (w, t) :: r => 2 + tl3 w + tl3 t + tlA3 r
+def tlO3 : Option Expr → Nat
+  | none => 0
+  | some y => 1 + tl3 y
+end
+theorem tl3_pos (e : Expr) : 1 ≤ tl3 e := by
+  cases e with
+  | column t c => cases t <;> simp [tl3]
+  | wildcard t => cases t <;> simp [tl3]
+  | _ => first | (simp only [tl3]; omega) | simp [tl3]
+def shortL3 (vs : List Expr) : Bool := vs.all (fun v => decide (tl3 v ≤ 20))
+
+/-- the level that decides whether the FIRST token of the unwrapped rendering is an operand token: the printer's level, except that
+`EXISTS (q)` starts with a word that is none (like `NOT …`) -/
+def lvlH : Expr → Nat
+  | .exists_ _ => 11
+  | e => PR.lvl e
+def isExists : Expr → Bool
+  | .exists_ _ => true
+  | _ => false
+theorem lvlH_eq {e : Expr} (h : isExists e = false) : lvlH e = PR.lvl e := by cases e <;> simp_all [lvlH, isExists]
+theorem lvlH_ge (e : Expr) : PR.lvl e ≤ lvlH e := by cases e <;> simp [lvlH, PR.lvl]
+theorem lvlH_of_le8 {e : Expr} (h : PR.lvl e ≤ 8) : lvlH e = PR.lvl e := by cases e <;> simp_all [lvlH, PR.lvl]
+
 /-! ### continuations -/
 def Bd3 (d : Gen.D) (k : Nat) (rest : List Tok) : Bool := Bd d k rest && !headIsOver rest
 /-- nothing of a query follows: nothing of a SELECT, and no set operator -/
@@ -152,9 +198,9 @@ def FragE3 (d : Gen.D) : Expr → Bool
   | .exists_ v => isSubQ d v
   | .unary o e => unOK d o && FragE3 d e
   | .compute l o r => binOK d o && FragE3 d l && FragE3 d r
-  | .kw k _ l r => FragE3 d l && (if k == .in_ then inRhs3 d r else FragE3 d r)
-  | .between _ b f t => FragE3 d b && FragE3 d f && FragE3 d t
-  | .compare o l r => cmpOK d o && FragE3 d l && FragE3 d r
+  | .kw k _ l r => FragE3 d l && (if k == .in_ then inRhs3 d r else FragE3 d r) && !isExists l
+  | .between _ b f t => FragE3 d b && FragE3 d f && FragE3 d t && !isExists b
+  | .compare o l r => cmpOK d o && FragE3 d l && FragE3 d r && !isExists l
   | .not_ e => FragE3 d e
   | .and_ l r => FragE3 d l && FragE3 d r
   | .xor l r => FragE3 d l && FragE3 d r
@@ -171,7 +217,7 @@ def FragO3 (d : Gen.D) : Option Expr → Bool
   | some y => FragE3 d y
 /-- the right side of `IN`: a non-empty list of short values, or a sub-query -/
 def inRhs3 (d : Gen.D) : Expr → Bool
-  | .subValue vs => FragL3 d vs && !vs.isEmpty && shortL vs
+  | .subValue vs => FragL3 d vs && !vs.isEmpty && shortL3 vs
   | .subQuery q => FragQ d q
   | _ => false
 def isSubQ (d : Gen.D) : Expr → Bool
